@@ -127,85 +127,3 @@ def possibleFragmentSpreads (s : SchemaD) (fx : Fixes) (d : Doc) : Prop :=
       isComposite s t = true → isComposite s p = true → typesOverlap s t p = true)
 
 end PyGql.Validate.Spec
-
-namespace PyGql.Validate.Spec
-open PyGql PyGql.Validate
-
-/-- input-side static context: the output view plus the chain of EXPECTED INPUT TYPES of the enclosing input
-    positions, innermost first (`none` = unknown) -/
-structure IView where
-  view : View := {}
-  inputs : List (Option Ty) := []
-
-namespace IView
-def inputType (v : IView) : Option Ty := TI.peek v.inputs
-/-- the input object type whose field is being given (the position one level up) -/
-def parentInputType (s : SchemaD) (fx : Fixes) (v : IView) : Option String :=
-  match TI.peek v.inputs 2 with
-  | some ty =>
-    if fx.v9 then (if isInputObject s ty.base then some ty.base else none)
-    else match ty with
-      | .named n => if isInputObject s n then some n else none
-      | _ => none
-  | none => none
-
-def push (v : IView) (view' : View) (t : Option Ty) : IView := { view := view', inputs := t :: v.inputs }
-
-/-- expected types of the positions below node `n` -/
-def enter (s : SchemaD) (n : Node) (v : IView) : IView :=
-  let view' := View.enter s n v.view
-  match n with
-  | .varDef vd => v.push view' (TI.inOnly s (typeFromAst s vd.type))
-  | .argument a =>
-    let args : Option (List ArgD) :=
-      match v.view.directive with
-      | some d => some d.args
-      | none => v.view.field.map (·.args)
-    match args with
-    | some as => v.push view' (TI.inOnly s ((as.find? (·.name == a.name)).map (·.type)))
-    | none => v.push view' none
-  | .value (.list _) => v.push view' (TI.inOnly s (v.inputType.map fun x => Ty.named x.base))
-  | .objField name =>
-    match v.inputType.map (·.base) with
-    | some b =>
-      if isInputObject s b then v.push view' (TI.inOnly s (((inputFields s b).find? (·.name == name)).map (·.type)))
-      else v.push view' none
-    | none => v.push view' none
-  | _ => { view := view', inputs := v.inputs }
-end IView
-
-/-- every node below the document with its input-side static context -/
-def inputNodes (s : SchemaD) (d : Doc) : List (Node × IView) := gnDoc (IView.enter s) {} d
-
-/-- does the scalar type named `scalar` accept the literal? (`parse_literal` of the five specified scalars; a custom
-    scalar built from SDL accepts every scalar / enum literal) -/
-def scalarAccepts (scalar : String) (v : Value) : Prop := parseLiteralFails scalar v = some false
-
-/-- **5.6.1 Values of correct type / 5.6.2 Input object field names / 5.6.4 required fields** - the clause the code
-    implements (ledger V8: list literals themselves are not checked against list-ness, and items are checked
-    against the fully unwrapped item type):
-    * a scalar literal stands at a position whose (unwrapped) type is a scalar accepting it;
-    * `null` does not stand at a non-null position;
-    * an enum literal stands at an enum type defining it (or at a custom scalar);
-    * an object literal stands at an input object type and gives all its required fields;
-    * every field of an object literal whose type is known to be an input object is defined by it.
-    Positions whose expected type is unknown are not judged (other rules report the cause). -/
-def literalOk (s : SchemaD) (fx : Fixes) (n : Node) (iv : IView) : Prop :=
-  match n with
-  | .value (.null) => ∀ t, iv.inputType ≠ some (.nonNull t)
-  | .value (.enum x) => ∀ it, iv.inputType = some it →
-      (isEnum s it.base = true → enumHas s it.base x = true) ∧
-      (isEnum s it.base = false → isScalar s it.base = true ∧ scalarAccepts it.base (.enum x))
-  | .value (.obj fs) => ∀ it, iv.inputType = some it →
-      isInputObject s it.base = true ∧
-      ∀ fd ∈ inputFields s it.base, ArgD.required fd = true → fd.name ∈ fs.map (·.name)
-  | .value (.list _) => True
-  | .value (.var _) => True
-  | .value v => ∀ it, iv.inputType = some it → isScalar s it.base = true ∧ scalarAccepts it.base v
-  | .objField _ => iv.inputType = none → iv.parentInputType s fx = none
-  | _ => True
-
-def valuesOfCorrectType (s : SchemaD) (fx : Fixes) (d : Doc) : Prop :=
-  ∀ q ∈ inputNodes s d, literalOk s fx q.1 q.2
-
-end PyGql.Validate.Spec
